@@ -33,6 +33,11 @@ def is_concrete(v: Any) -> bool:
     return isinstance(v, CONCRETE)
 
 
+def is_key(v: Any) -> bool:
+    """Usable as a concrete dict key: concrete values and heap objects (hashed by identity)."""
+    return is_concrete(v) or isinstance(v, Obj)
+
+
 def is_numeric(v: Any) -> bool:
     return isinstance(v, (bool, int, float)) or is_sym_int(v) or is_sym_real(v) or is_sym_bv(v) or is_sym_bool(v)
 
@@ -473,6 +478,8 @@ def contains(I, container, item, lineno=0):
     if isinstance(container, SDict):
         return z3.Select(container.expr[0], to_z3(item))
     if isinstance(container, PDict):
+        if is_key(item) and all(is_key(k) for k in container.items):
+            return item in container.items
         container = list(container.items.keys())
     if isinstance(container, dict):
         container = list(container.keys())
@@ -630,7 +637,7 @@ def subscript(I, obj, idx, lineno=0):
         return index_concrete(I, list(obj), idx, lineno)
     if isinstance(obj, PDict) or isinstance(obj, dict):
         items = obj.items if isinstance(obj, PDict) else obj
-        if is_concrete(idx):
+        if is_key(idx):
             if idx in items:
                 return items[idx]
             I.raise_('KeyError', idx, lineno=lineno)
@@ -728,7 +735,7 @@ def store_subscript(I, obj, idx, v, lineno=0):
         return
     if isinstance(obj, PDict):
         I.effects.append(('mutate', obj, 'setitem', lineno))
-        if is_concrete(idx):
+        if is_key(idx):
             obj.items[idx] = v
             return
         raise Unsupported('symbolic key store into concrete dict (use SDict in the harness)')
@@ -769,7 +776,7 @@ def del_subscript(I, obj, idx, lineno=0):
         return
     if isinstance(obj, PDict):
         I.effects.append(('mutate', obj, 'delitem', lineno))
-        if is_concrete(idx):
+        if is_key(idx):
             if idx not in obj.items:
                 I.raise_('KeyError', idx, lineno=lineno)
             del obj.items[idx]
@@ -1168,7 +1175,7 @@ SSET_METHODS = {'add': _ss_add, 'discard': _ss_discard, 'remove': _ss_remove, 'c
 
 
 def _pd_get(I, d, lineno, k, default=None):
-    if is_concrete(k):
+    if is_key(k):
         return d.items.get(k, default)
     for kk, v in d.items.items():
         e = equal(I, k, kk, lineno)
@@ -1190,7 +1197,7 @@ def _pd_values(I, d, lineno):
 
 
 def _pd_pop(I, d, lineno, k, *default):
-    if not is_concrete(k):
+    if not is_key(k):
         raise Unsupported('pop symbolic key from concrete dict')
     if k in d.items:
         _mut(I, d, 'pop', lineno)
@@ -1201,7 +1208,7 @@ def _pd_pop(I, d, lineno, k, *default):
 
 
 def _pd_setdefault(I, d, lineno, k, default=None):
-    if not is_concrete(k):
+    if not is_key(k):
         raise Unsupported('setdefault symbolic key')
     if k not in d.items:
         _mut(I, d, 'setdefault', lineno)
@@ -1304,6 +1311,8 @@ def module_attr(I, mod: ModuleVal, name: str):
         v = I.module_global(sub, name)
         if v is not _MISSING:
             return v
+    if mod.name == 'inspect' and name == 'isgenerator':
+        return Builtin('inspect.isgenerator', lambda v: isinstance(v, GenVal))
     if mod.name == 'operator':
         if name in ('eq', 'ne', 'lt', 'le', 'gt', 'ge'):
             node = {'eq': ast.Eq, 'ne': ast.NotEq, 'lt': ast.Lt, 'le': ast.LtE, 'gt': ast.Gt, 'ge': ast.GtE}[name]()
